@@ -279,7 +279,11 @@ class Model:
         return self._langs[k]
 
     # -- dump template
-    def dump_worlds(self):
+    def dump_worlds(self, substitutions=None):
+        """worlds of the per-field template of _dump_format: [(term, predicates on the value)].  `substitutions`: a list that
+        receives (term, old, new, predicates so far) for every `<text>.replace(old, new)` with constant arguments on the way; the
+        call is then treated as the identity (the caller decides what the substitution means for its property).  Without the
+        list such a call is outside the template vocabulary."""
         f = self.src.func('deb822:Deb822._dump_format')
         self.rep.saw_func(f)
         loops = [s for s in f.node.body if isinstance(s, ast.For)]
@@ -287,10 +291,24 @@ class Model:
             raise AnalysisError('%s: expected `for key in self`' % f.site)
         loop = loops[0]
         keyvar = loop.target.id
+        seen_subst = set()
 
         def hook(it, call, env):
             if norm(call.func) == 'self.get_as_string' and len(call.args) == 1 and norm(call.args[0]) == keyvar:
                 return strlang.Slot('value')
+            if isinstance(call.func, ast.Attribute) and call.func.attr == 'replace' and len(call.args) == 2 and not call.keywords \
+                    and all(isinstance(a, ast.Constant) and isinstance(a.value, str) for a in call.args) and call.args[0].value:
+                v = it.ev(call.func.value, env)
+                if isinstance(v, strlang.T):
+                    if call.args[0].value == call.args[1].value:
+                        return v
+                    if substitutions is None:
+                        raise AnalysisError('%s: line %d rewrites the text with %s: outside the template vocabulary of this rule' % (f.site, call.lineno, norm(call)[:60]))
+                    k = (call.lineno, call.col_offset, tuple((p_[0], norm(p_[1]), p_[3]) for p_ in it.preds))
+                    if k not in seen_subst:
+                        seen_subst.add(k)
+                        substitutions.append((v, call.args[0].value, call.args[1].value, list(it.preds), call.lineno))
+                    return v
             return NotImplemented
 
         def run(dec):
@@ -311,6 +329,26 @@ class Model:
                 if path != 'value':
                     raise AnalysisError('%s: condition on %s' % (f.site, path))
             out.append((term, list(it.preds)))
+        # a condition that does not change what is written is no condition of the template: two worlds with the same term whose
+        # predicates differ in the polarity of exactly one test are one world without that test
+        changed = True
+        while changed:
+            changed = False
+            for i in range(len(out)):
+                for j in range(i + 1, len(out)):
+                    (t1, p1), (t2, p2) = out[i], out[j]
+                    if strlang.show(t1) != strlang.show(t2) or len(p1) != len(p2):
+                        continue
+                    k1 = [(p_[0], norm(p_[1]), p_[2], p_[3]) for p_ in p1]
+                    k2 = [(p_[0], norm(p_[1]), p_[2], p_[3]) for p_ in p2]
+                    diff = [n for n in range(len(k1)) if k1[n] != k2[n]]
+                    if len(diff) == 1 and k1[diff[0]][:3] == k2[diff[0]][:3] and k1[diff[0]][3] != k2[diff[0]][3]:
+                        out[i] = (t1, [p_ for n, p_ in enumerate(p1) if n != diff[0]])
+                        del out[j]
+                        changed = True
+                        break
+                if changed:
+                    break
         return out, f
 
     def refine(self, lang, preds):
